@@ -116,10 +116,12 @@ class PredictWorld:
             out = self.ctx.merged(lambda i: call(getattr(self.m, op), ts(i)))
         return out
 
-    def spec(self, which, beta=None):
+    def spec(self, which, beta=None, details=None):
         with active(self.ctx):
             X = SymPX()
             f = {"win": PS.win, "draw": PS.draw, "rank": PS.rank_probabilities}[which]
+            if details is not None:
+                return f(self.prior, self.beta if beta is None else beta, X, details=details)
             return f(self.prior, self.beta if beta is None else beta, X)
 
     def run_second_instance(self, op, **kw):
@@ -131,6 +133,47 @@ class PredictWorld:
             self.ctx.merged(lambda i: call(getattr(self.m, op), t1(i)))
             out = self.ctx.merged(lambda i: call(getattr(m2, op), t2(i)))
         return out, p2["beta"]
+
+    def run_after_history(self, op, **kw):
+        """op on the game after the *same instance* has been used before: (1) all three predictions
+        on a bigger game that shares every rating object (one more team in front: another team count
+        and player count); (2) all three predictions on this very game while its rating objects held
+        other values (replaced in place afterwards, same objects and ids).  A result that depends on an
+        earlier call (a memo keyed by too little, a stale cache) differs from the first-use result.
+        Order: (2) then (1) then the call (a cache filled with the current values first would mask (2))."""
+        ops = ("predict_win", "predict_draw", "predict_rank")
+        with active(self.ctx):
+            c = self.ctx
+            hx = [(c.real("hx_mu"), c.real("hx_sg"))]
+            c.assume(hx[0][1].t >= 0)
+            hv = [[(c.real(f"hv_mu_{i}_{j}"), c.real(f"hv_sg_{i}_{j}")) for j in range(n)] for i, n in enumerate(self.sizes)]
+            for row in hv:
+                for (_m, sg) in row:
+                    c.assume(sg.t >= 0)
+            R = self.S.rating_cls
+
+            def one(_i):
+                ts = self.teams(**kw)
+                extra = [R(hx[0][0], hx[0][1], name="extra")]
+                objs = [p for t in ts for p in t]
+                keep = [(p.mu, p.sigma) for p in objs]
+                flat = [v for row in hv for v in row]
+                # first the game at hand while its objects hold other values (same objects, same ids) ...
+                for p, (m2, s2) in zip(objs, flat):
+                    p.mu, p.sigma = m2, s2
+                for o in ops:
+                    r = call(getattr(self.m, o), ts)
+                    if r[0] != "return":
+                        return r
+                for p, (m0, s0) in zip(objs, keep):
+                    p.mu, p.sigma = m0, s0
+                # ... then a bigger game sharing every object with its current values
+                for o in ops:
+                    r = call(getattr(self.m, o), [extra] + ts)
+                    if r[0] != "return":
+                        return r
+                return call(getattr(self.m, op), ts)
+            return c.merged(one)
 
     def prover(self, timeout_ms=10000, extra_hyps=()):
         return field.Prover(list(self.ctx.hyps()) + list(extra_hyps), list(self.ctx.facts.values()), timeout_ms=timeout_ms)
@@ -200,3 +243,32 @@ def shapes(tier, nmin=2, nmax=None):
             continue
         out += svs
     return out
+
+
+def history_records(prop, W, model, sizes, ops, firsts=None):
+    """`<op>/after-earlier-calls/same-as-first-use`: the prediction of an instance that has been used
+    before (run_after_history) is, value by value, the closed form of the game at hand"""
+    recs = []
+    shape = f"sizes={tuple(sizes)}"
+    which = {"predict_win": "win", "predict_draw": "draw", "predict_rank": "rank"}
+    for op in ops:
+        fn = f"{model}.{op}"
+        rp = std_replay("c12_history", model, sizes, op=op)
+        t0 = time.time()
+        out = W.run_after_history(op)
+        ok = out[0] == "return"
+        note = "" if ok else repr(out[1])[:200]
+        if ok:
+            sp = W.spec(which[op])
+            try:
+                got = [term(out[1])] if op == "predict_draw" else ([term(x) for x in out[1]] if op == "predict_win" else [term(p) for (_r, p) in out[1]])
+            except Exception as e:  # noqa: BLE001
+                got, ok, note = [], False, f"result shape: {e}"
+            want = [term(sp)] if op == "predict_draw" else [term(x) for x in sp]
+            if ok:
+                P = W.prover()
+                P.resolve_ites(got, extra_hyps=W.phi_monotone(P))
+                ok = len(got) == len(want) and all(P.prove_eq(g, w)[0] for g, w in zip(got, want))
+        recs.append(driver.rec(f"{prop}/{model}/{op}/after-earlier-calls/same-as-first-use@{shape}", "discharged" if ok else "refuted", "field", time.time() - t0,
+                               fn=fn, shape=shape, mode="R", replay=None if ok else rp, note=note))
+    return recs
